@@ -4,8 +4,10 @@
 // " PROPFAIL@<op>:<why>" when the implementation's own answers violate the property (checked against a
 // reference multiset / key set kept here, independent of the Coq model).
 //
-//   dary <arity> <rev> ops...        ops: P,k,p  O  S,k,p  UA  B,k:p;k:p;...  C  D(rain)
-//   addr <arity> <rev> <kt> <nk> ops...   ops: P,k,p  R,k  O  U,k,p  S,k,p  UA  B,k:p;...  C  D
+//   dary <arity> <rev> ops...        ops: P,k,p (push const&)  PR,k,p (push &&)  O (pop)  OX (extract_top)  S,k,p  UA
+//                                         B,k:p;.. (build_heap const vector&)  Bi,.. (iterator range)  Bm,.. (vector&&)
+//                                         C  D(rain)  V,n (reserve)  Y (copy ctor+assign round trip)  Z (move round trip)
+//   addr <arity> <rev> <kt> <nk> ops...   the same plus  R,k (remove)  U,k,p (update; inserts an absent key)
 // P (addr), R and O are skipped (observation still printed) when their precondition does not hold.
 #include <algorithm>
 #include <cstdint>
@@ -13,6 +15,7 @@
 #include <cstdlib>
 #include <fstream>
 #include <iostream>
+#include <limits>
 #include <set>
 #include <sstream>
 #include <string>
@@ -45,7 +48,7 @@ static std::vector<Op> parse_ops(std::istringstream& in) {
         Op o; size_t c = tok.find(',');
         o.name = tok.substr(0, c);
         std::string rest = c == std::string::npos ? "" : tok.substr(c + 1);
-        if (o.name == "B") {
+        if (o.name[0] == 'B') {
             size_t p = 0;
             while (p < rest.size()) {
                 size_t q = rest.find(';', p); if (q == std::string::npos) q = rest.size();
@@ -79,48 +82,56 @@ static bool is_extreme(It b, It e, unsigned p) {
 
 template <unsigned Arity>
 static void run_dary(const std::vector<Op>& ops, std::ostringstream& out) {
-    tlx::DAryHeap<uint32_t, Arity, TabLess<uint32_t>> h;
+    using H = tlx::DAryHeap<uint32_t, Arity, TabLess<uint32_t>>;
+    H h;
     std::multiset<uint32_t> ref;
     bool dirty = false, first = true; std::string fail;
-    int build_variant = 0; size_t npop = 0;
+    size_t npop = 0;
     auto note = [&](size_t i, const char* why) { if (fail.empty()) fail = std::to_string(i) + ":" + why; };
-    auto do_pop = [&](size_t i) {
+    auto do_pop = [&](size_t i, bool extract) {
         uint32_t t = h.top();
         if (!dirty && !is_extreme(ref.begin(), ref.end(), prio_of(t))) note(i, "pop-not-min");
         auto it = ref.find(t);
         if (it == ref.end()) note(i, "pop-unknown-key"); else ref.erase(it);
-        if (npop++ % 2) h.pop(); else { uint32_t e = h.extract_top(); if (e != t) note(i, "extract_top!=top"); }
+        if (!extract) h.pop(); else { uint32_t e = h.extract_top(); if (e != t) note(i, "extract_top!=top"); }
     };
     auto emit = [&](size_t i) {
         bool sane = h.sanity_check();
+        const H& ch = h;                       // size/empty/top/capacity through the const interface
         if (!first) out << ' ';
         first = false;
-        out << h.size() << ':';
-        if (h.empty()) out << '-'; else out << h.top();
+        out << ch.size() << ':';
+        if (ch.empty()) out << '-'; else out << ch.top();
         out << ':' << (sane ? 1 : 0);
-        if (h.size() != ref.size() || h.empty() != ref.empty()) note(i, "size");
-        else if (!dirty && !h.empty() && (!ref.count(h.top()) || !is_extreme(ref.begin(), ref.end(), prio_of(h.top())))) note(i, "top-not-min");
+        if (ch.size() != ref.size() || ch.empty() != ref.empty() || ch.capacity() < ch.size()) note(i, "size");
+        else if (!dirty && !ch.empty() && (!ref.count(ch.top()) || !is_extreme(ref.begin(), ref.end(), prio_of(ch.top())))) note(i, "top-not-min");
         else if (!dirty && !sane) note(i, "sanity_check");
     };
     for (size_t i = 0; i < ops.size(); ++i) {
         const Op& o = ops[i];
-        if (o.name == "D") { while (!ref.empty() && h.size()) { do_pop(i); emit(i); } continue; }
+        if (o.name == "D") { while (!ref.empty() && h.size()) { do_pop(i, npop++ % 2 == 0); emit(i); } continue; }
         // a key that is already stored keeps its priority (the table may only change through S + update_all)
-        if (o.name == "P") { if (!ref.count(o.f[0])) set_prio(o.f[0], o.f[1]); h.push(static_cast<uint32_t>(o.f[0])); ref.insert(o.f[0]); }
-        else if (o.name == "O") { if (!ref.empty() && h.size()) do_pop(i); }
+        if (o.name == "P" || o.name == "PR") {
+            if (!ref.count(o.f[0])) set_prio(o.f[0], o.f[1]);
+            uint32_t k = static_cast<uint32_t>(o.f[0]);
+            if (o.name == "P") h.push(k); else h.push(std::move(k));      // const& / && overload
+            ref.insert(o.f[0]);
+        }
+        else if (o.name == "O" || o.name == "OX") { if (!ref.empty() && h.size()) do_pop(i, o.name == "OX"); }
         else if (o.name == "S") { set_prio(o.f[0], o.f[1]); dirty = true; }
         else if (o.name == "UA") { h.update_all(); dirty = false; }
-        else if (o.name == "B") {
+        else if (o.name[0] == 'B') {
             std::vector<uint32_t> keys;
             for (auto& kp : o.kps) { set_prio(kp.first, kp.second); keys.push_back(kp.first); }
-            switch (build_variant++ % 3) {
-            case 0: h.build_heap(keys); break;
-            case 1: h.build_heap(keys.begin(), keys.end()); break;
-            default: { std::vector<uint32_t> tmp(keys); h.build_heap(std::move(tmp)); }
-            }
+            if (o.name == "B") h.build_heap(keys);                               // const vector&
+            else if (o.name == "Bi") h.build_heap(keys.begin(), keys.end());     // iterator range
+            else { std::vector<uint32_t> tmp(keys); h.build_heap(std::move(tmp)); }   // vector&&
             ref.clear(); ref.insert(keys.begin(), keys.end()); dirty = false;
         }
         else if (o.name == "C") { h.clear(); ref.clear(); dirty = false; }
+        else if (o.name == "V") h.reserve(static_cast<size_t>(o.f[0]));
+        else if (o.name == "Y") { H c(h); H e2; e2 = c; h = e2; }                // copy ctor + copy assignment
+        else if (o.name == "Z") { H m(std::move(h)); H e2; e2 = std::move(m); h = std::move(e2); }   // move ctor + move assignment
         emit(i);
     }
     if (!fail.empty()) out << " PROPFAIL@" << fail;
@@ -128,57 +139,70 @@ static void run_dary(const std::vector<Op>& ops, std::ostringstream& out) {
 
 template <typename KT, unsigned Arity>
 static void run_addr(const std::vector<Op>& ops, size_t nk, std::ostringstream& out) {
-    tlx::DAryAddressableIntHeap<KT, Arity, TabLess<KT>> h;
+    using H = tlx::DAryAddressableIntHeap<KT, Arity, TabLess<KT>>;
+    H h;
     std::set<KT> ref;
     bool dirty = false, first = true; std::string fail;
-    int build_variant = 0; size_t npop = 0;
+    size_t npop = 0;
     auto note = [&](size_t i, const char* why) { if (fail.empty()) fail = std::to_string(i) + ":" + why; };
-    auto do_pop = [&](size_t i) {
+    auto do_pop = [&](size_t i, bool extract) {
         KT t = h.top();
         if (!dirty && !is_extreme(ref.begin(), ref.end(), prio_of(t))) note(i, "pop-not-min");
         if (!ref.count(t)) note(i, "pop-unknown-key");
         ref.erase(t);
-        if (npop++ % 2) h.pop(); else { KT e = h.extract_top(); if (e != t) note(i, "extract_top!=top"); }
+        if (!extract) h.pop(); else { KT e = h.extract_top(); if (e != t) note(i, "extract_top!=top"); }
     };
     auto emit = [&](size_t i) {
         bool sane = h.sanity_check();
+        const H& ch = h;                       // size/empty/top/contains/capacity through the const interface
         if (!first) out << ' ';
         first = false;
-        out << h.size() << ':';
-        if (h.empty()) out << '-'; else out << static_cast<unsigned long>(h.top());
+        out << ch.size() << ':';
+        if (ch.empty()) out << '-'; else out << static_cast<unsigned long>(ch.top());
         out << ':' << (sane ? 1 : 0) << ':';
         bool mem_ok = true;
+        // keys 0..nk-1: stored keys, never-inserted keys inside the handle table (gaps) and keys beyond its end
         for (size_t k = 0; k < nk; ++k) {
-            bool c = h.contains(static_cast<KT>(k));
+            bool c = ch.contains(static_cast<KT>(k));
             out << (c ? '1' : '0');
             if (c != (ref.count(static_cast<KT>(k)) != 0)) mem_ok = false;
         }
-        if (h.size() != ref.size() || h.empty() != ref.empty()) note(i, "size");
+        if (ch.contains(std::numeric_limits<KT>::max())) mem_ok = false;     // not_present() itself is never a member
+        if (ch.size() != ref.size() || ch.empty() != ref.empty() || ch.capacity() < ch.size()) note(i, "size");
         else if (!mem_ok) note(i, "contains");
-        else if (!dirty && !h.empty() && (!ref.count(h.top()) || !is_extreme(ref.begin(), ref.end(), prio_of(h.top())))) note(i, "top-not-min");
+        else if (!dirty && !ch.empty() && (!ref.count(ch.top()) || !is_extreme(ref.begin(), ref.end(), prio_of(ch.top())))) note(i, "top-not-min");
         else if (!dirty && !sane) note(i, "sanity_check");
     };
     for (size_t i = 0; i < ops.size(); ++i) {
         const Op& o = ops[i];
-        if (o.name == "D") { while (!ref.empty() && h.size()) { do_pop(i); emit(i); } continue; }
-        // P / R / O are applied only when their documented precondition holds (decided on the reference set)
-        if (o.name == "P") { KT k = static_cast<KT>(o.f[0]); if (!ref.count(k)) { set_prio(o.f[0], o.f[1]); h.push(k); ref.insert(k); } }
+        if (o.name == "D") { while (!ref.empty() && h.size()) { do_pop(i, npop++ % 2 == 0); emit(i); } continue; }
+        // P / PR / R / O are applied only when their documented precondition holds (decided on the reference set)
+        if (o.name == "P" || o.name == "PR") {
+            KT k = static_cast<KT>(o.f[0]);
+            if (!ref.count(k)) {
+                set_prio(o.f[0], o.f[1]);
+                KT k2 = k;
+                if (o.name == "P") h.push(k); else h.push(std::move(k2));       // const& / && overload
+                ref.insert(k);
+            }
+        }
         else if (o.name == "R") { KT k = static_cast<KT>(o.f[0]); if (ref.count(k)) { h.remove(k); ref.erase(k); } }
-        else if (o.name == "O") { if (!ref.empty() && h.size()) do_pop(i); }
+        else if (o.name == "O" || o.name == "OX") { if (!ref.empty() && h.size()) do_pop(i, o.name == "OX"); }
         else if (o.name == "U") { set_prio(o.f[0], o.f[1]); h.update(static_cast<KT>(o.f[0])); ref.insert(static_cast<KT>(o.f[0])); }
         else if (o.name == "S") { set_prio(o.f[0], o.f[1]); dirty = true; }
         else if (o.name == "UA") { h.update_all(); dirty = false; }
-        else if (o.name == "B") {
+        else if (o.name[0] == 'B') {
             std::vector<KT> keys;
             for (auto& kp : o.kps) { set_prio(kp.first, kp.second); keys.push_back(static_cast<KT>(kp.first)); }
-            switch (build_variant++ % 3) {
-            case 0: h.build_heap(keys); break;
-            case 1: h.build_heap(keys.begin(), keys.end()); break;
-            default: { std::vector<KT> tmp(keys); h.build_heap(std::move(tmp)); }
-            }
+            if (o.name == "B") h.build_heap(keys);                               // const vector&
+            else if (o.name == "Bi") h.build_heap(keys.begin(), keys.end());     // iterator range
+            else { std::vector<KT> tmp(keys); h.build_heap(std::move(tmp)); }    // vector&&
             ref.clear(); ref.insert(keys.begin(), keys.end()); dirty = false;
         }
         else if (o.name == "C") { h.clear(); ref.clear(); dirty = false; }
+        else if (o.name == "V") h.reserve(static_cast<size_t>(o.f[0]));          // grows handles_ with not_present()
+        else if (o.name == "Y") { H c(h); H e2; e2 = c; h = e2; }
+        else if (o.name == "Z") { H m(std::move(h)); H e2; e2 = std::move(m); h = std::move(e2); }
         emit(i);
     }
     if (!fail.empty()) out << " PROPFAIL@" << fail;
